@@ -10,6 +10,7 @@ STAGE_TEXT = {
     "dist-trace": "trace validation (I->S): seeded random executions of the real distributor keeper (up to four sub-distributors over nine accounts, two denominations) checked by TLC against spec/trace/Trace_Distributor.tla (actions and invariants of Distributor.tla); negative control on every run",
     "vesting-trace": "trace validation (I->S): long seeded random message histories (12-30 steps, 12 addresses, delegations, time steps) recorded from the real message router and checked by TLC against spec/trace/Trace_Vesting.tla, which re-uses the message operators, invariants and action properties of Vesting.tla and compares verdict, full post-state, withdraw response and typed withdrawal events of every step; negative control and per-component diagnosis of a rejected step",
     "chain-trace": "trace validation (I->S) of the whole application: 8-35 block histories (full-app EndBlocker / BeginBlocker, fees, custom-module messages, governance updates, failed multi-message transactions, export / import) on four-period schedules and three-level distribution chains, checked by TLC against spec/trace/Trace_Chain.tla (actions, invariants and supply action properties of Chain.tla, minter state, every balance, every leftover, supply and mint event compared on every step); negative control and diagnosis",
+    "signature-trace": "trace validation (I->S): 20-40 step random histories of publish / store / create-account messages and verify queries on the real handlers (three addresses, four reference ids, near-collision keys, mostly valid records with single-field faults) checked by TLC against spec/trace/Trace_Signature.tla (actions of Signature.tla, VerifySound, write-once, no-overwrite); negative control and diagnosis",
     "minter-numeric": "numeric stage: real-magnitude schedules (amounts to 10^27, millisecond times) executed twice with different block cadences on the real keeper; sampled totals, remainder hand-overs and the reported inflation are checked by Apalache as relations over spec/MinterMath.tla at P = 10^18",
     "vesting-numeric": "numeric stage: TLC enumerates spec/mc/MC_Split (all small splits) and prints the cases in which rounding matters; the harness lifts them to real magnitude (and adds seeded amounts to 10^30 and pool sends with 18-digit free fractions), executes them on the real handlers, and Apalache checks every recorded step against spec/VestingMath.tla at P = 10^18",
     "split-drift-mc": "TLC checks the schedule drift bound of the split arithmetic (VestingMath.tla) exhaustively at small scale",
